@@ -40,3 +40,16 @@ Section Final.
   Definition compress_parse_final := compress_parse prime_p sqrt_ok.
   Definition lift_x_complete_final := lift_x_complete prime_p sqrt_ok.
 End Final.
+
+Lemma example_sign :
+  pubkey_of_seckey 1 = compress G /\
+  exists r s v, sign 1 2 3 = Some (r, s, v) /\ 0 < r /\ 0 < s <= halfOrder /\ v < 4.
+Proof.
+  split; [vm_compute; reflexivity|].
+  destruct (sign 1 2 3) as [[[r s] v]|] eqn:E; [|vm_compute in E; discriminate E].
+  exists r, s, v. split; [reflexivity|].
+  pose proof (sign_ranges _ _ _ _ _ _ E) as (Hr & Hs & Hv).
+  assert (r <> 0).
+  { intros ->. vm_compute in E. discriminate E. }
+  repeat split; try apply Hs; try apply Hv. destruct Hr. apply Z.le_neq. split; [assumption|]. intro; subst; contradiction.
+Qed.
